@@ -413,6 +413,96 @@ macro_rules! conv_bisim {
     }};
 }
 
+/// nalgebra's field interface on the vector types: every method must give the same result for every
+/// encoding of the same alpha-operands
+macro_rules! field_bisim {
+    ($st:expr, $ty:ty, $f:ty, $d:expr) => {{
+        use nalgebra::{ComplexField, RealField};
+        type D = $ty;
+        let d: Dims = $d;
+        let l = <D as Subject<$f>>::layout(d);
+        let xs = alpha_alphabet::<$f>(&l, &[2.0, -0.5], 0);
+        let ys = alpha_alphabet::<$f>(&l, &[1.5, -3.0], l.nslots());
+        type M = (&'static str, fn(D, D) -> D);
+        let methods: Vec<M> = vec![
+            ("powf", |a, b| ComplexField::powf(a, b)),
+            ("powc", |a, b| ComplexField::powc(a, b)),
+            ("log", |a, b| ComplexField::log(a, b)),
+            ("hypot", |a, b| ComplexField::hypot(a, b)),
+            ("scale", |a, b| ComplexField::scale(a, b)),
+            ("unscale", |a, b| ComplexField::unscale(a, b)),
+            ("mul_add", |a, b| ComplexField::mul_add(a.clone(), b, a)),
+            ("atan2", |a, b| RealField::atan2(a, b)),
+            ("min", |a, b| RealField::min(a, b)),
+            ("max", |a, b| RealField::max(a, b)),
+            ("copysign", |a, b| RealField::copysign(a, b)),
+            ("clamp", |a, b| RealField::clamp(a.clone(), b.clone(), RealField::max(a, b))),
+            ("recip", |a, _| ComplexField::recip(a)),
+            ("sqrt", |a, _| ComplexField::sqrt(a)),
+            ("sinc", |a, _| ComplexField::sinc(a)),
+            ("signum", |a, _| ComplexField::signum(a)),
+            ("modulus", |a, _| ComplexField::modulus(a)),
+            ("to_polar.1", |a, _| ComplexField::to_polar(a).1),
+            ("exp_m1", |a, _| ComplexField::exp_m1(a)),
+            ("tanh", |a, _| ComplexField::tanh(a)),
+        ];
+        for (name, m) in &methods {
+            for ax in &xs {
+                for ay in &ys {
+                    let ex = encodings(&l, ax);
+                    let ey = encodings(&l, ay);
+                    let mut first: Option<Vec<$f>> = None;
+                    'enc: for px in &ex {
+                        for py in &ey {
+                            let (x, y): (D, D) = (<D as Subject<$f>>::build(d, px), <D as Subject<$f>>::build(d, py));
+                            $st.evaluations += 1;
+                            $st.transitions += 1;
+                            $st.state(hash64(&(l.type_name.as_str(), *name, px.bits(), py.bits(), px.present.clone(), py.present.clone())));
+                            let r = match guarded(|| <D as Subject<$f>>::parts(&m(x, y), d)) {
+                                Ok(r) => r,
+                                Err(e) => {
+                                    $st.violation(Violation { sig: format!("field {name} {} panic", l.type_name), case: json!({"type": l.type_name, "method": name, "x": parts_to_json(px), "y": parts_to_json(py)}), what: format!("panicked: {e}") });
+                                    break 'enc;
+                                }
+                            };
+                            let av = alpha_vals(&l, &r);
+                            match &first {
+                                None => first = Some(av),
+                                Some(f0) => {
+                                    // outside the domain (NaN real part in every encoding) the derivative
+                                    // parts are not compared: NaN * explicit zero is NaN, absent stays absent
+                                    let upto = if f0[0].is_nan() && av[0].is_nan() { 1 } else { av.len() };
+                                    if let Some(i) = (0..upto).find(|i| !num_eq(av[*i], f0[*i])) {
+                                        $st.violation(Violation {
+                                            sig: format!("field {name} {} encodings-disagree", l.type_name),
+                                            case: json!({"type": l.type_name, "method": name, "x": parts_to_json(px), "y": parts_to_json(py)}),
+                                            what: format!("{name}: slot {} is {:e} with the all-explicit encoding but {:e} with presence {:?} / {:?}", l.slots[i].name, f0[i] as f64, av[i] as f64, px.present, py.present),
+                                        });
+                                        break 'enc;
+                                    }
+                                }
+                            }
+                        }
+                    }
+                    if ex.len() * ey.len() > 1 {
+                        $st.nontrivial(hash64(&(l.type_name.as_str(), *name, ax.vals.iter().map(|v| v.bits()).collect::<Vec<_>>(), ay.vals.iter().map(|v| v.bits()).collect::<Vec<_>>())));
+                    }
+                }
+            }
+        }
+    }};
+}
+
+fn field_interface(st: &mut Stats) {
+    use nalgebra::{Const, Dyn};
+    use num_dual::*;
+    field_bisim!(st, DualVec<f64, f64, Const<2>>, f64, Dims::n(2));
+    field_bisim!(st, DualVec<f64, f64, Dyn>, f64, Dims::n(2));
+    field_bisim!(st, DualVec<f32, f32, Dyn>, f32, Dims::n(1));
+    field_bisim!(st, Dual2Vec<f64, f64, Const<2>>, f64, Dims::n(2));
+    field_bisim!(st, Dual2Vec<f64, f64, Dyn>, f64, Dims::n(1));
+}
+
 fn conversions(st: &mut Stats) {
     use nalgebra::{Const, Dyn};
     use num_dual::*;
@@ -506,6 +596,7 @@ fn main() {
     let tier = if cli.mode == Mode::Quick { Tier::Quick } else { Tier::Thorough };
     universe(tier, &mut e);
     conversions(e.stats);
+    field_interface(e.stats);
     let axes = std::mem::take(&mut e.axes);
     let classes = e.classes_total;
     let capped = axes.iter().any(|a| a["frontier_capped"].as_bool().unwrap_or(false));
@@ -514,7 +605,7 @@ fn main() {
         mode: cli.mode,
         seed: cli.seed,
         start,
-        rule: "abstraction alpha: absent part -> zeros. (a) every operation of a 53-operation alphabet, and the checked / unchecked narrowing and identity conversions of DualVec and Dual2Vec, x alpha-operand tuples (each group zero or non-zero, two real parts) x ALL 2^k encodings of the zero groups as absent or explicit zeros; (b) BFS over histories of 13 accumulator updates (compound assignments with dual and scalar operands, y - acc, y / acc, neg, recip, sqrt) x y in every encoding, from every encoding of the accumulator; a state is an alpha-class (alpha value bits + the set of concrete presence patterns that reach it), de-duplicated per depth. Oracle: alpha(result) is the same number in every slot for all encodings (bisimulation), and equals the exact rational reference where no rounding can occur. Non-trivial = alpha tuple reached through more than one encoding.".into(),
+        rule: "abstraction alpha: absent part -> zeros. (a) every operation of a 53-operation alphabet, the checked / unchecked narrowing and identity conversions and 20 methods of nalgebra's field interface on DualVec and Dual2Vec, x alpha-operand tuples (each group zero or non-zero, two real parts) x ALL 2^k encodings of the zero groups as absent or explicit zeros; (b) BFS over histories of 13 accumulator updates (compound assignments with dual and scalar operands, y - acc, y / acc, neg, recip, sqrt) x y in every encoding, from every encoding of the accumulator; a state is an alpha-class (alpha value bits + the set of concrete presence patterns that reach it), de-duplicated per depth. Oracle: alpha(result) is the same number in every slot for all encodings (bisimulation), and equals the exact rational reference where no rounding can occur. Non-trivial = alpha tuple reached through more than one encoding.".into(),
         assumptions: vec!["signed zeros are identified (0 - r vs -r); NaN equals NaN".into(), "history frontier capped per depth and type when it exceeds the cap (reported as frontier_capped)".into()],
         extra: json!({"axes": axes, "alpha_classes": classes}),
         exhaustive: !capped,
